@@ -22,6 +22,7 @@ import (
 	"github.com/oxia-db/oxia/server/wal"
 
 	"verif/harness/internal/hx"
+	"verif/harness/internal/kvsafe"
 )
 
 const namespace = "default"
@@ -174,7 +175,7 @@ func newNode(shard int64) *node {
 	var err error
 	n.dir, err = os.MkdirTemp(tmpRoot(), "h_notif")
 	hx.Must(err)
-	f, err := kv.NewPebbleKVFactory(&kv.FactoryOptions{InMemory: true, CacheSizeMB: 1, DataDir: filepath.Join(n.dir, "db")})
+	f, err := kvsafe.New(&kv.FactoryOptions{InMemory: true, CacheSizeMB: 1, DataDir: filepath.Join(n.dir, "db")})
 	hx.Must(err)
 	n.kvf = &recFactory{Factory: f}
 	n.wf = wal.NewWalFactory(&wal.FactoryOptions{BaseWalDir: filepath.Join(n.dir, "wal"), SegmentSize: 256 * 1024,
